@@ -704,6 +704,9 @@ pub fn configs(extreme: bool) -> Vec<Cfg> {
                 v.push(Cfg { extreme, persistent: true, cache, ttl, version, limit: None, blocks: 4096, focus: 0, autocheck: false });
             }
         }
+        // a memory limit on a persistent store: refused writes next to records that are still
+        // only in the write-behind buffer, followed by flush and reopen
+        v.push(Cfg { extreme, persistent: true, cache: false, ttl, version: 3, limit: Some(9000), blocks: 4096, focus: 0, autocheck: false });
     }
     v
 }
@@ -727,6 +730,9 @@ pub fn run(opts: &Opts) -> i32 {
         for c in cfgs.iter_mut() {
             c.focus = 1;
         }
+    }
+    if opts.get("only") == Some("limited") {
+        cfgs.retain(|c| c.persistent && c.limit.is_some());
     }
     if opts.get("only") == Some("persistent") {
         cfgs.retain(|c| c.persistent);
